@@ -111,6 +111,13 @@ OnEncode(ev) ==
              /\ sidType' = fr[1][1] /\ sidSchema' = fr[1][2] /\ live' = fr[1][3]
              /\ retired' = fr[1][4] /\ opened' = fr[1][5]
              /\ viol' = viol \cup v \cup fr[1][6] \cup fr[2]
+        ELSE IF ev.oc = "ok"
+        THEN \* the wire of this stream is not walked (big batches; histories with a fault inside the IPC writer, after which
+             \* the sub-streams are outside the domain): what the batch itself shows - its id, the main record first, one
+             \* payload per type - is judged all the same
+             /\ nextBid' = nextBid + 1
+             /\ viol' = viol \cup v \cup Framing(ev)[2]
+             /\ UNCHANGED <<sidType, sidSchema, live, retired, opened>>
         ELSE /\ UNCHANGED <<nextBid, sidType, sidSchema, live, retired, opened>>
              /\ viol' = viol \cup v
      /\ UNCHANGED hdr
